@@ -17,6 +17,8 @@ namespace occa {
 
       bool kernelsAreValid(blockStatement &root);
 
+      bool sharedAndExclusiveAreInsideKernels(blockStatement &root);
+
       bool kernelIsValid(functionDeclStatement &kernelSmnt);
 
       bool kernelHasValidReturnType(functionDeclStatement &kernelSmnt);
